@@ -1,2 +1,80 @@
+"""C08 end to end: an IO fault is injected on one chunk key of a stored input for its first k accesses, under the REAL
+ThreadsExecutor (tenacity retry wrapper, async_map_unordered, async_map_dag).  compute must succeed iff k <= retries, otherwise
+raise the injected error; the faulted key is accessed exactly min(k, retries+1) failing times (+1 successful access if it
+recovers); every operation delivers exactly its advertised number of task-end notifications when the run succeeds."""
+import os
+import warnings
+
+import numpy as np
+
+from harness import obs, traced
+from harness.execs import RecordingCallback, export_plan
+
+
 def run(chk):
-    pass
+    import cubed
+    import cubed.array_api as xp
+    import zarr
+    from cubed.runtime.create import create_executor
+    warnings.simplefilter("ignore")
+    runs = []
+    combos = [(r, k) for r in (0, 1, 2) for k in range(0, r + 3)]
+    if chk.tier == "quick":
+        combos = [(2, 0), (2, 2), (2, 3), (1, 1), (1, 2), (0, 0), (0, 1)]
+    for retries, k in combos:
+        for bs in ((None, 2) if chk.tier == "thorough" else (None,)):
+            src_key = "c/1/0"
+            with traced.Session() as s0:
+                src = os.path.join(s0.work, "src.zarr")
+                z = zarr.create_array(src, shape=(4, 4), chunks=(2, 2), dtype="i8")
+                a = np.arange(16).reshape(4, 4)
+                z[:] = a
+                faults = {os.path.join(src, src_key): dict(op="get", first=k)} if k else {}
+                with traced.Session(faults=faults) as s:
+                    spec = s.spec()
+                    x = cubed.from_zarr(src, spec=spec)
+                    y = xp.add(xp.negative(x), 1)
+                    cb = RecordingCallback()
+                    kw = dict(retries=retries)
+                    if bs:
+                        kw["batch_size"] = bs
+                    exc, res = None, None
+                    try:
+                        res = y.compute(executor=create_executor("threads"), callbacks=[cb], **kw)
+                    except BaseException as e:  # noqa
+                        exc = e
+                    evs = s.events()
+            nfault = sum(1 for e in evs if e["k"] == "fault")
+            npass = sum(1 for e in evs if e["k"] == "faultpass")
+            want_ok = k <= retries
+            rec = dict(retries=retries, faults_on_first=k, batch_size=bs, outcome="ok" if exc is None else type(exc).__name__,
+                       failing_accesses=nfault, later_accesses=npass)
+            runs.append(rec)
+            chk.case(key=("e2e", retries, k, bs), nontrivial=k > 0)
+            chk.trace_validated()
+            tag = f"threads executor retries={retries}, chunk {src_key} fails on its first {k} reads, batch_size={bs}"
+            if want_ok:
+                if exc is not None:
+                    chk.violation(f"{tag}: compute raised {type(exc).__name__} although the task succeeds within the retry budget", replay=rec)
+                    continue
+                if not np.array_equal(res, -a + 1):
+                    chk.violation(f"{tag}: wrong values after retries", replay=rec)
+                if nfault != k:
+                    chk.violation(f"{tag}: {nfault} failing accesses observed, expected {k}", replay=rec)
+                plan = export_plan(cb.dag)
+                delivered = {}
+                for e in cb.events:
+                    if e["ev"] == "taskend":
+                        delivered[e["op"]] = delivered.get(e["op"], 0) + e["n"]
+                for o in plan["ops"]:
+                    if delivered.get(o["name"], 0) != o["nt"]:
+                        chk.violation(f"{tag}: operation {o['name']} delivered {delivered.get(o['name'], 0)} task-end notifications, "
+                                      f"advertised {o['nt']}", replay=rec)
+            else:
+                if exc is None:
+                    chk.violation(f"{tag}: compute finished although the task never succeeded (failure dropped)", replay=rec)
+                elif not isinstance(exc, obs.InjectedIOError):
+                    chk.violation(f"{tag}: raised {type(exc).__name__} instead of the task's own error", replay=rec)
+                elif nfault != retries + 1:
+                    chk.violation(f"{tag}: the submission made {nfault} attempts, expected retries+1 = {retries + 1}", replay=rec)
+    chk.extra["end_to_end_fault_injection"] = runs
